@@ -120,6 +120,49 @@ def runServer (variant : Variant) (nil : α) (reg : Reg ε σ α) (dispatch : Co
             match runEach reg.post dispatch nil s2 with
             | (t3, _, s3) => (t1 ++ t2 ++ t3, err, s3)
 
+/-! ## Registration (tars/filter.go): the state a call sees is the fold of the registrations made
+    before it -/
+
+/-- one registration call -/
+inductive RegOp (ε σ α : Type) where
+  /-- `registerClientFilter` / `registerServerFilter`: `f.cf = cf` (one slot: replaces) -/
+  | single (f : Flt ε σ α)
+  /-- `registerPreClientFilter` / `registerPreServerFilter`: `f.preCfs = append(f.preCfs, cf)` -/
+  | pre (f : Flt ε σ α)
+  /-- `registerPostClientFilter` / `registerPostServerFilter`: `f.postCfs = append(f.postCfs, cf)` -/
+  | post (f : Flt ε σ α)
+  /-- `UseClientFilterMiddleware(cfm...)` / `UseServerFilterMiddleware(sfm...)`:
+      `f.cfms = append(f.cfms, cfm...)` -/
+  | useMw (ms : List (Mw ε σ α))
+
+/-- the state after one registration -/
+def Reg.register (reg : Reg ε σ α) : RegOp ε σ α → Reg ε σ α
+  | .single f => { reg with single := some f }
+  | .pre f => { reg with pre := reg.pre ++ [f] }
+  | .post f => { reg with post := reg.post ++ [f] }
+  | .useMw ms => { reg with mws := reg.mws ++ ms }
+
+/-- the state after a history of registrations, in the order they were made -/
+def Reg.after (reg : Reg ε σ α) (ops : List (RegOp ε σ α)) : Reg ε σ α := ops.foldl Reg.register reg
+
+/-- the middlewares / pre / post / single filters a history registers, in order -/
+def RegOp.mwsOf : RegOp ε σ α → List (Mw ε σ α)
+  | .useMw ms => ms
+  | _ => []
+def RegOp.preOf : RegOp ε σ α → List (Flt ε σ α)
+  | .pre f => [f]
+  | _ => []
+def RegOp.postOf : RegOp ε σ α → List (Flt ε σ α)
+  | .post f => [f]
+  | _ => []
+def RegOp.singleOf : RegOp ε σ α → List (Flt ε σ α)
+  | .single f => [f]
+  | _ => []
+
+/-- the chain `getMiddleware…Filter` composes from a list of middlewares (first registered
+    outermost) -/
+def chainOf (mws : List (Mw ε σ α)) : Flt ε σ α := mws.foldr (fun m cf => m cf) baseFilter
+
 /-! ## Recording pass-through filters (what the harness registers; used by the driver) -/
 
 /-- a legacy single filter that records `b`, calls what it was handed exactly once, records `a`
